@@ -220,7 +220,9 @@ class CompositeSystem:
             temp_dim = 1
             for e_sys_position, local_index in enumerate(reversed(index)):
                 temp_grobal_index += local_index * temp_dim
-                temp_dim = temp_dim * (self._elemental_systems[e_sys_position].dim ** 2)
+                temp_dim = temp_dim * (
+                    self._elemental_systems[-1 - e_sys_position].dim ** 2
+                )
             return self.basis()[temp_grobal_index]
         else:
             return self.basis()[index]
